@@ -45,6 +45,7 @@ import (
 
 const (
 	vW        = 40 * time.Millisecond // every retry wait during the run
+	vMargin   = 8 * time.Millisecond  // a control call must have returned this long before the next attempt's dial
 	vDelta    = 6 * time.Millisecond  // provoked failure -> first control call
 	vGrace    = 100 * time.Millisecond // after Stop: no dial may start within this time
 	vDeadline = 3 * time.Second       // any single expected observable
@@ -298,7 +299,9 @@ func runScript(s vscript, variant uint64) (obs string) {
 			return true
 		}
 		haveCtl = false
-		return c0.After(h.t.Add(-vW)) && c1.Before(h.t)
+		// the control call must have RETURNED well before the next attempt begins: the supervisor reads the address and only
+		// then dials (the hook), so a call that ends a moment before the hook may have come too late for this attempt
+		return c0.After(h.t.Add(-vW)) && c1.Add(vMargin).Before(h.t)
 	}
 
 loop:
@@ -404,6 +407,26 @@ loop:
 		case <-established:
 			isEstablished = true
 			time.Sleep(2 * time.Millisecond) // let the reply reach the client
+			// the connection counts as established once the service has finished its own set-up (onConnect): when the
+			// device is not reported Up yet, that ends with the Up report — wait for it (a loaded machine can take a while)
+			// instead of dropping the connection under the service's feet
+			w.mu.Lock()
+			n0 := len(w.reports)
+			isUpNow := s.up != 0
+			if n0 > 0 {
+				isUpNow = w.reports[n0-1] == "U"
+			}
+			w.mu.Unlock()
+			if !isUpNow {
+				for t0 := time.Now(); time.Since(t0) < vDeadline; time.Sleep(time.Millisecond) {
+					w.mu.Lock()
+					n := len(w.reports)
+					w.mu.Unlock()
+					if n > n0 {
+						break
+					}
+				}
+			}
 		case <-readerDone:
 			// the client closed the connection before configuring the reader
 		case <-time.After(vDeadline):
@@ -467,7 +490,7 @@ loop:
 	done, next := true, 0
 	if stopped {
 		if h := w.waitHook(vGrace); h != nil {
-			if !h.t.After(c1) {
+			if !h.t.After(c1.Add(vMargin)) {
 				// the attempt had started before Stop returned: the Stop was not placed inside the wait
 				return "inconclusive:control-placement"
 			}
